@@ -73,6 +73,12 @@ static void refused_calls(qlisttbl_t *t, const char *after) {
 static void observe(qlisttbl_t *t, const model_t *m, const char *after) {
     refused_calls(t, after);
     if ((int)t->size(t) != m->n) vc_viol("multimap:size", "after %s: size() = %zu, model has %d entries", after, t->size(t), m->n);
+    for (int q = 0; q < 4; q++) {   /* optional out-parameters omitted: same answers */
+        int have = 0; for (int i = 0; i < m->n; i++) have |= CASEI ? !strcasecmp(NAMES[m->nm[i]], NAMES[q]) : !strcmp(NAMES[m->nm[i]], NAMES[q]);
+        void *d = t->get(t, NAMES[q], NULL, false); qlisttbl_data_t *mu = t->getmulti(t, NAMES[q], false, NULL);
+        if ((d != NULL) != have || (mu != NULL) != have) vc_viol("multimap:null-size-pointer", "after %s: get / getmulti of '%s' without an out-parameter disagree with the model", after, NAMES[q]);
+        if (mu) t->freemulti(mu);
+    }
     int gn[40], gv[40];
     for (int nm = 0; nm < 2; nm++) {    /* unfiltered walk = all entries in lookup order */
         int c = walk(t, NULL, nm, gn, gv, after), bad = c != m->n;
